@@ -38,10 +38,10 @@ int main(int argc,char **argv){ vf::init(argc,argv,"C08","model_checking"); bool
 	std::vector<cb::Config> cfgs; const char *be[]={"thread_shared","process_shared"}; for(int b=0;b<2;b++) for(unsigned l=1;l<=(th?8u:3u);l++){ int nkeys= l<=3? (int)l+2 : (l<=5?(int)l+1:9); if(nkeys>9) nkeys=9; if(b==1&&!th&&l!=2) continue; cfgs.push_back(config(be[b],l,nkeys)); }
 	if(!vf::C().replay_file.empty()){ std::ifstream f(vf::C().replay_file); std::stringstream ss; ss<<f.rdbuf(); std::string l=ss.str(); std::string label=vf::jfield(l,"config"); size_t p=l.find("\"history\":["); std::vector<int> h; if(p!=std::string::npos){ size_t e=l.find(']',p); h=vf::parse_choices(l.substr(p+11,e-p-11)); }
 		for(int b=0;b<2;b++) for(unsigned lim=1;lim<=8;lim++) for(int nk=2;nk<=9;nk++){ cb::Config c=config(be[b],lim,nk); if(c.label!=label) continue; cb::RunResult r=cb::run_history(c,h,true); for(size_t i=0;i<r.trace.size();i++) printf("  %s\n",r.trace[i].c_str()); printf("replay: %s\n",r.ok?"history conforms":r.what.c_str()); if(!r.ok) vf::violation(c.label+":"+r.sig,r.what,"\"config\":"+vf::jstr(label)); } return vf::finish(); }
-	int depth=th?9:5, nd=th?5:4; double t_budget=vf::C().budget_s*0.55;
+	int depth=th?7:5, nd=th?5:4; double t_budget=vf::C().budget_s*0.55;
 	vf::C().rule="states = canonical forms of the set-valued reference model (entries, deadlines relative to now, LRU order) reached by replaying histories on the real cache; alphabet: store(k, now+2 | no deadline [+ shared trigger]) for limit+2 keys, fetch(k), tick 1/3, remove(a), rise(t), stats; oracle: size <= limit after every history, every fetch/stats result admissible under 'expired first, then least recently stored-or-fetched' (any expired victim admissible), destructive audit of every key; memory clause: 28 fill/empty cycle scenarios on a 512 KiB process-shared segment with available() compared per cycle";
 	vf::assume("virtual clock via interposed time(); the victim among several expired entries is not specified (set-valued model)"); vf::assume("behaviour for values that do not fit the shared segment is outside the statement: only non-corruption and continued service are checked");
-	vf::parallel(cfgs.size(),16,[&](int i){ cb::Stats st; cb::bfs(cfgs[i],depth,st,[&](){ return vf::elapsed()>t_budget; }); vf::C().states+=st.states; vf::C().transitions+=st.transitions; vf::C().traces+=st.traces; vf::guard(("bfs_depth_completed:"+cfgs[i].label).c_str(),st.depth_done); if(st.fixpoint) vf::guard(("bfs_fixpoint:"+cfgs[i].label).c_str()); },th?1400:110);
+	vf::parallel(cfgs.size(),16,[&](int i){ cb::Stats st; int dep= cfgs[i].limit<=4? depth : (th?5:depth); cb::bfs(cfgs[i],dep,st,[&](){ return vf::elapsed()>t_budget; }); vf::C().states+=st.states; vf::C().transitions+=st.transitions; vf::C().traces+=st.traces; vf::guard(("bfs_depth_completed:"+cfgs[i].label).c_str(),st.depth_done); if(st.fixpoint) vf::guard(("bfs_fixpoint:"+cfgs[i].label).c_str()); },th?1400:110);
 	{ std::vector<cb::Config> nc; nc.push_back(config("thread_shared",2,4)); nc.push_back(config("thread_shared",1,3)); if(th){ nc.push_back(config("thread_shared",3,5)); nc.push_back(config("process_shared",2,4)); }
 	  for(size_t k=0;k<nc.size();k++) vf::parallel(16,16,[&](int sh){ cb::Stats st; for(int d=1;d<=nd;d++) cb::nodedup(nc[k],d,sh,16,st); vf::C().traces+=st.traces; },th?1400:110); }
 	vf::parallel(16,16,[&](int sh){ cycles_pass(sh,16,th?200:20); },th?1400:110);
